@@ -22,7 +22,7 @@ copy_demo
 (cd "$WT" && go test -count=1 "$@" > /tmp/seedchk.patched.$$ 2>&1); PATCHED=$?
 rm_demo
 git -C "$WT" apply "$SRC/patch.diff" 2>/dev/null || true   # (git clean does not touch tracked edits; patch still applied)
-VERIF_REPO=$WT /verif/bin/baseline.sh > /tmp/seedchk.base.$$ 2>&1; BASE=$?
+if [ -n "${SKIP_BASELINE:-}" ]; then printf "baseline: skipped (run separately)\n\n" > /tmp/seedchk.base.$$; BASE=-1; else VERIF_REPO=$WT /verif/bin/baseline.sh > /tmp/seedchk.base.$$ 2>&1; BASE=$?; fi
 export VERIF_REPO=$WT VERIF_BIN=/verif/.build/seedchk.$$.test DSIM_EVIDENCE_DIR=/tmp/seedchk-ev.$$
 mkdir -p $DSIM_EVIDENCE_DIR
 /verif/bin/check "$PROP" ${SEED_TIER:+--tier $SEED_TIER} > /tmp/seedchk.check.$$ 2>&1; CHECK=$?
